@@ -33,6 +33,7 @@ RULE = (
     "exists before and after (so the common-index-box comparison is not an identity check) AND at least one "
     "edge left the architecture unchanged (same-function clause) AND clone outputs were compared; distinct = "
     "distinct case descriptions"
+    " Added: 12 % of the walk edges first call a method of the clone's nested modules (or of a plain module) with arguments it rejects (keyword of another module type / layer index that does not exist); only if the call raised and left the description unchanged does the real mutation follow on the same object"
 )
 ASSUMPTIONS = [
     "verdict on pattern A only (clone, then exactly one advertised method on the fresh clone); pattern B "
